@@ -345,29 +345,60 @@ func (c *Check) runPlans(plans []*plan.Plan) {
 
 // ---------------------------------------------------------------- reproduction, minimisation
 
+// sameClass compares violation classes. Race classes name the innermost
+// library function of each access; the detector cannot always restore the
+// stack of the earlier access, so two race reports are the same class when
+// they share a library function.
+func sameClass(want, got string) bool {
+	if want == got {
+		return true
+	}
+	if !strings.HasPrefix(want, "race:") || !strings.HasPrefix(got, "race:") {
+		return false
+	}
+	w := strings.Split(strings.TrimPrefix(want, "race:"), " <-> ")
+	g := strings.Split(strings.TrimPrefix(got, "race:"), " <-> ")
+	for _, a := range w {
+		for _, b := range g {
+			if a == b && a != "-" && a != "" {
+				return true
+			}
+		}
+	}
+	return false
+}
+
 // reproduces runs a plan and reports a violation of the same class, if any.
+// Whether the race detector prints a given report depends on state inside
+// the race runtime that no user-level seam controls (random dropping of
+// sync.Pool puts, shadow-cell eviction): a race class counts as reproduced
+// when it recurs in at least 2 of 3 fresh executions of the plan.
 func (c *Check) reproduces(p *plan.Plan, class string) *Violation {
-	tries := 1
+	tries, need := 1, 1
 	if strings.HasPrefix(class, "race:") {
-		tries = 3
+		tries, need = 3, 2
 	}
 	var last *Violation
+	hits := 0
 	for i := 0; i < tries; i++ {
 		pr := c.env.Run(p)
 		j := c.judge(c, p, pr)
-		var hit *Violation
 		for k := range j.Violations {
-			if j.Violations[k].Class == class {
-				hit = &j.Violations[k]
+			if sameClass(class, j.Violations[k].Class) {
+				hits++
+				last = &j.Violations[k]
 				break
 			}
 		}
-		if hit == nil {
+		if hits >= need {
+			last.Class = class
+			return last
+		}
+		if hits+(tries-1-i) < need {
 			return nil
 		}
-		last = hit
 	}
-	return last
+	return nil
 }
 
 func clonePlan(p *plan.Plan) *plan.Plan {
@@ -1127,7 +1158,7 @@ func (c *Check) writeReplay(mp *plan.Plan, mv, orig *Violation, dims []string) s
 	q.Uncontrolled = c.env.Uncontrol
 	rec := "1/1"
 	if strings.HasPrefix(mv.Class, "race:") {
-		rec = "3/3"
+		rec = ">=2/3"
 	}
 	q.Observed = &plan.Observed{Oracle: mv.Oracle, Task: mv.Task, Op: mv.Op, Detail: head(mv.Detail, 6000), Class: mv.Class,
 		Recurrence: rec, Minimised: true, SizeBefore: planSize(orig.Plan), SizeAfter: planSize(mp), Dimension: strings.Join(dims, ",")}
